@@ -27,11 +27,9 @@ type parserASTNode = ecalparser.ASTNode
 var ecalPrettyPrint = ecalparser.PrettyPrint
 
 type c08x struct {
-	file   *ast.File         // prettyprinter.go (for one-expression helper predicates)
-	depth  int
-	canon  map[string]string // parameter name of ppNeedsBrackets -> parent / child / childIndex
 	consts map[string]string // NodeXXX -> value
-	ok     bool
+	ints   map[string]string // integer constants of the package
+	ok     bool              // the operator table was understood
 	why    []string
 }
 
@@ -47,128 +45,31 @@ func c08ParseFile(name string) (*token.FileSet, *ast.File, error) {
 	return fs, f, err
 }
 
-func leanStr(s string) string { return strconv.Quote(s) }
-
-// term translates an int/string valued Go expression of ppNeedsBrackets.
-func (x *c08x) term(e ast.Expr) string {
-	switch v := e.(type) {
-	case *ast.ParenExpr:
-		return "(" + x.term(v.X) + ")"
-	case *ast.BasicLit:
-		if v.Kind == token.INT {
-			return v.Value
-		}
-		if v.Kind == token.STRING {
-			s, _ := strconv.Unquote(v.Value)
-			return leanStr(s)
-		}
-	case *ast.Ident:
-		if x.canon[v.Name] == "childIndex" {
-			return "childIndex"
-		}
-		if c, ok := x.consts[v.Name]; ok {
-			return leanStr(c)
-		}
-	case *ast.SelectorExpr:
-		if id, ok := v.X.(*ast.Ident); ok && (x.canon[id.Name] == "parent" || x.canon[id.Name] == "child") {
-			switch v.Sel.Name {
-			case "binding":
-				return x.canon[id.Name] + ".binding"
-			case "Name":
-				return x.canon[id.Name] + ".name"
-			}
-		}
-	case *ast.CallExpr:
-		if fn, ok := v.Fun.(*ast.Ident); ok && fn.Name == "len" && len(v.Args) == 1 {
-			if sel, ok := v.Args[0].(*ast.SelectorExpr); ok && sel.Sel.Name == "Children" {
-				if id, ok := sel.X.(*ast.Ident); ok && (x.canon[id.Name] == "parent" || x.canon[id.Name] == "child") {
-					return x.canon[id.Name] + ".nch"
-				}
-			}
-		}
-	case *ast.BinaryExpr:
-		if v.Op == token.ADD {
-			return "(" + x.term(v.X) + " + " + x.term(v.Y) + ")"
-		}
+// c08ParsePackage parses all non-test files of package parser.
+func c08ParsePackage() ([]*ast.File, error) {
+	names, err := filepath.Glob(filepath.Join(repoDir(), "parser", "*.go"))
+	if err != nil {
+		return nil, err
 	}
-	return x.fail("unsupported term %T", e)
+	var files []*ast.File
+	for _, n := range names {
+		if strings.HasSuffix(n, "_test.go") {
+			continue
+		}
+		f, err := goparser.ParseFile(token.NewFileSet(), n, nil, 0)
+		if err != nil {
+			return nil, err
+		}
+		files = append(files, f)
+	}
+	return files, nil
 }
+
+func leanStr(s string) string { return strconv.Quote(s) }
 
 func isNil(e ast.Expr) bool {
 	id, ok := e.(*ast.Ident)
 	return ok && id.Name == "nil"
-}
-
-func (x *c08x) ldOf(e ast.Expr) (string, bool) {
-	if sel, ok := e.(*ast.SelectorExpr); ok && sel.Sel.Name == "leftDenotation" {
-		if id, ok := sel.X.(*ast.Ident); ok && (x.canon[id.Name] == "parent" || x.canon[id.Name] == "child") {
-			return x.canon[id.Name], true
-		}
-	}
-	return "", false
-}
-
-// cond translates a boolean Go expression.
-func (x *c08x) cond(e ast.Expr) string {
-	switch v := e.(type) {
-	case *ast.ParenExpr:
-		return "(" + x.cond(v.X) + ")"
-	case *ast.UnaryExpr:
-		if v.Op == token.NOT {
-			return "(!" + x.cond(v.X) + ")"
-		}
-	case *ast.Ident:
-		if v.Name == "true" || v.Name == "false" {
-			return v.Name
-		}
-	case *ast.CallExpr:
-		// helper predicate on parent / child whose body is a single return expression: inline it
-		if fn, ok := v.Fun.(*ast.Ident); ok && len(v.Args) == 1 && x.file != nil && x.depth < 4 {
-			if arg, ok := v.Args[0].(*ast.Ident); ok && (x.canon[arg.Name] == "parent" || x.canon[arg.Name] == "child") {
-				for _, d := range x.file.Decls {
-					fd, ok := d.(*ast.FuncDecl)
-					if !ok || fd.Name.Name != fn.Name || fd.Recv != nil || len(fd.Type.Params.List) != 1 ||
-						len(fd.Type.Params.List[0].Names) != 1 || len(fd.Body.List) != 1 {
-						continue
-					}
-					ret, ok := fd.Body.List[0].(*ast.ReturnStmt)
-					if !ok || len(ret.Results) != 1 {
-						continue
-					}
-					saved := x.canon
-					x.canon = map[string]string{fd.Type.Params.List[0].Names[0].Name: saved[arg.Name]}
-					x.depth++
-					r := "(" + x.cond(ret.Results[0]) + ")"
-					x.depth--
-					x.canon = saved
-					return r
-				}
-			}
-		}
-	case *ast.BinaryExpr:
-		switch v.Op {
-		case token.LOR:
-			return "(" + x.cond(v.X) + " || " + x.cond(v.Y) + ")"
-		case token.LAND:
-			return "(" + x.cond(v.X) + " && " + x.cond(v.Y) + ")"
-		case token.EQL, token.NEQ:
-			if who, ok := x.ldOf(v.X); ok && isNil(v.Y) {
-				if v.Op == token.EQL {
-					return "(!" + who + ".hasLd)"
-				}
-				return who + ".hasLd"
-			}
-			op := " = "
-			if v.Op == token.NEQ {
-				op = " ≠ "
-			}
-			return "decide (" + x.term(v.X) + op + x.term(v.Y) + ")"
-		case token.LSS, token.LEQ, token.GTR, token.GEQ:
-			op := map[token.Token]string{token.LSS: " < ", token.LEQ: " ≤ ", token.GTR: " > ", token.GEQ: " ≥ "}[v.Op]
-			return "decide (" + x.term(v.X) + op + x.term(v.Y) + ")"
-		}
-	}
-	return x.fail("unsupported condition %T", e)
 }
 
 // c08FirstDiff describes the first difference between two trees under c08Equal.
@@ -218,25 +119,38 @@ func c08Tool(args []string) int {
 		fmt.Fprintln(os.Stderr, "usage: harness C08 -tool gen <out.lean>")
 		return 2
 	}
-	x := &c08x{consts: map[string]string{}, canon: map[string]string{}, ok: true}
+	x := &c08x{consts: map[string]string{}, ints: map[string]string{}, ok: true}
 
-	// node names
-	_, cf, err := c08ParseFile("const.go")
+	// constants of the package: node names (NodeXXX = "…") and integers
+	files, err := c08ParsePackage()
 	if err != nil {
 		fmt.Fprintln(os.Stderr, err)
 		return 2
 	}
-	ast.Inspect(cf, func(n ast.Node) bool {
-		if vs, ok := n.(*ast.ValueSpec); ok && len(vs.Names) == len(vs.Values) {
-			for i, nm := range vs.Names {
-				if bl, ok := vs.Values[i].(*ast.BasicLit); ok && bl.Kind == token.STRING && strings.HasPrefix(nm.Name, "Node") {
-					s, _ := strconv.Unquote(bl.Value)
-					x.consts[nm.Name] = s
+	for _, cf := range files {
+		for _, d := range cf.Decls {
+			gd, ok := d.(*ast.GenDecl)
+			if !ok || gd.Tok != token.CONST {
+				continue
+			}
+			for _, sp := range gd.Specs {
+				vs := sp.(*ast.ValueSpec)
+				if len(vs.Names) != len(vs.Values) {
+					continue
+				}
+				for i, nm := range vs.Names {
+					if bl, ok := vs.Values[i].(*ast.BasicLit); ok {
+						if bl.Kind == token.STRING {
+							str, _ := strconv.Unquote(bl.Value)
+							x.consts[nm.Name] = str
+						} else if bl.Kind == token.INT {
+							x.ints[nm.Name] = bl.Value
+						}
+					}
 				}
 			}
 		}
-		return true
-	})
+	}
 
 	// astNodeMap and ndPrefix
 	_, pf, err := c08ParseFile("parser.go")
@@ -301,6 +215,8 @@ func c08Tool(args []string) int {
 								if s, ok := a.X.(*ast.SelectorExpr); ok && s.Sel.Name == "binding" && a.Op == token.ADD {
 									if bl, ok := a.Y.(*ast.BasicLit); ok && bl.Kind == token.INT {
 										prefixOff = bl.Value
+									} else if id, ok := a.Y.(*ast.Ident); ok && x.ints[id.Name] != "" {
+										prefixOff = x.ints[id.Name]
 									}
 								}
 							case *ast.SelectorExpr:
@@ -325,63 +241,7 @@ func c08Tool(args []string) int {
 	}
 
 	// ppNeedsBrackets
-	_, ppf, err := c08ParseFile("prettyprinter.go")
-	if err != nil {
-		fmt.Fprintln(os.Stderr, err)
-		return 2
-	}
-	x.file = ppf
-	var steps [][2]string // condition, result
-	final := ""
-	found := false
-	for _, d := range ppf.Decls {
-		fd, ok := d.(*ast.FuncDecl)
-		if !ok || fd.Name.Name != "ppNeedsBrackets" {
-			continue
-		}
-		found = true
-		var pnames []string
-		for _, f := range fd.Type.Params.List {
-			for _, n := range f.Names {
-				pnames = append(pnames, n.Name)
-			}
-		}
-		if len(pnames) != 3 {
-			x.fail("ppNeedsBrackets parameters are %v", pnames)
-		} else {
-			x.canon = map[string]string{pnames[0]: "parent", pnames[1]: "child", pnames[2]: "childIndex"}
-		}
-		for i, st := range fd.Body.List {
-			switch v := st.(type) {
-			case *ast.IfStmt:
-				if v.Init != nil || v.Else != nil || len(v.Body.List) != 1 {
-					x.fail("if statement %d is not of the form `if c { return e }`", i)
-					continue
-				}
-				r, ok := v.Body.List[0].(*ast.ReturnStmt)
-				if !ok || len(r.Results) != 1 {
-					x.fail("if statement %d does not return one value", i)
-					continue
-				}
-				steps = append(steps, [2]string{x.cond(v.Cond), x.cond(r.Results[0])})
-			case *ast.ReturnStmt:
-				if len(v.Results) != 1 || i != len(fd.Body.List)-1 {
-					x.fail("unexpected return statement %d", i)
-					continue
-				}
-				final = x.cond(v.Results[0])
-			default:
-				x.fail("unsupported statement %T in ppNeedsBrackets", st)
-			}
-		}
-	}
-	if !found {
-		x.fail("ppNeedsBrackets not found (bracket rule not in the expected place)")
-	}
-	if final == "" {
-		x.fail("ppNeedsBrackets has no final return")
-		final = "false"
-	}
+	rule, ruleOk, ruleWhy := c08TranslateRule(files, x.consts, x.ints)
 
 	var sb strings.Builder
 	sb.WriteString("/-! GENERATED by `harness C08 -tool gen` from parser/const.go, parser/parser.go, parser/prettyprinter.go\n")
@@ -400,15 +260,16 @@ func c08Tool(args []string) int {
 	sb.WriteString("/-- what ppNeedsBrackets reads of a node -/\nstructure BN where\n  name : String\n  binding : Nat\n  hasLd : Bool\n  nch : Nat\n\n")
 	sb.WriteString("/-- ppNeedsBrackets, translated statement by statement -/\n")
 	sb.WriteString("def needsBrackets (parent child : BN) (childIndex : Nat) : Bool :=\n")
-	if x.ok {
-		for _, s := range steps {
-			fmt.Fprintf(&sb, "  if %s then %s else\n", s[0], s[1])
-		}
-		fmt.Fprintf(&sb, "  %s\n\n", final)
+	if ruleOk {
+		fmt.Fprintf(&sb, "  %s\n\n", rule)
 	} else {
 		sb.WriteString("  false\n\n")
 	}
-	fmt.Fprintf(&sb, "/-- the extractor understood every construct -/\ndef shapeOk : Bool := %v\n", x.ok)
+	fmt.Fprintf(&sb, "/-- ppNeedsBrackets was translated (otherwise the facts about `needsBrackets` are not obligations\n    and the check amplifies its differential search instead) -/\ndef shapeOk : Bool := %v\n", ruleOk)
+	if !ruleOk {
+		fmt.Fprintf(&sb, "-- rule not established: %s\n", strings.ReplaceAll(ruleWhy, "\n", " "))
+	}
+	fmt.Fprintf(&sb, "\n/-- astNodeMap and ndPrefix were understood -/\ndef tableOk : Bool := %v\n", x.ok)
 	for _, w := range x.why {
 		fmt.Fprintf(&sb, "-- not understood: %s\n", strings.ReplaceAll(w, "\n", " "))
 	}
